@@ -73,27 +73,29 @@ def avgSse (a b x : Nat) : Nat :=
 def avgFirstPortable (a x : Nat) : Nat := (a / 2 + x) % 256
 def avgFirstSse (a x : Nat) : Nat := (x + ((a &&& 254) + 0 + 1) / 2) % 256
 
-inductive Variant where
-  | portable | sse
-deriving DecidableEq, Repr
+/-- one byte of the row, portable code: filter type `f` (1 Sub, 3 Average, 4 Paeth) -/
+def stepPortable (f : Nat) (prevEmpty : Bool) (a b c x : Nat) : Nat :=
+  if f = 1 then subPortable a x
+  else if f = 3 then (if prevEmpty then avgFirstPortable a x else avgPortable a b x)
+  else if f = 4 then paethPortable a b c x
+  else x
 
-/-- one byte of the row: filter type `f` (1 Sub, 3 Average, 4 Paeth) -/
-def step (v : Variant) (f : Nat) (prevEmpty : Bool) (a b c x : Nat) : Nat :=
-  if f = 1 then
-    (match v with | .portable => subPortable a x | .sse => subSse a x)
-  else if f = 3 then
-    (if prevEmpty then (match v with | .portable => avgFirstPortable a x | .sse => avgFirstSse a x)
-     else (match v with | .portable => avgPortable a b x | .sse => avgSse a b x))
-  else if f = 4 then
-    (match v with | .portable => paethPortable a b c x | .sse => paethSse a b c x)
+/-- one byte of the row, SSE4.2 code -/
+def stepSse (f : Nat) (prevEmpty : Bool) (a b c x : Nat) : Nat :=
+  if f = 1 then subSse a x
+  else if f = 3 then (if prevEmpty then avgFirstSse a x else avgSse a b x)
+  else if f = 4 then paethSse a b c x
   else x
 
 /-- a whole row with filter distance `d` (bytes per pixel): `curr` is filtered in place, left to right -/
-def runRow (v : Variant) (f d : Nat) (curr prev : Array UInt8) : List UInt8 :=
+def runRowWith (step : Nat → Bool → Nat → Nat → Nat → Nat → Nat) (f d : Nat) (curr prev : Array UInt8) : List UInt8 :=
   ((List.range curr.size).foldl (fun (out : Array UInt8) i =>
     let a := if i < d then 0 else (out.getD (i - d) 0).toNat
     let b := (prev.getD i 0).toNat
     let c := if i < d then 0 else (prev.getD (i - d) 0).toNat
-    out.push (UInt8.ofNat (step v f prev.isEmpty a b c (curr.getD i 0).toNat))) #[]).toList
+    out.push (UInt8.ofNat (step f prev.isEmpty a b c (curr.getD i 0).toNat))) #[]).toList
+
+def runRowPortable := runRowWith stepPortable
+def runRowSse := runRowWith stepSse
 
 end WuffsVerif.PngFilter
